@@ -1,51 +1,27 @@
 (* C06 — non-2xx responses always raise a status-carrying, class-correct error.
    Only statements, [exact], and Print Assumptions live here.
-   F06a-d are fixed; F06e (name shadowing in the endpoints module) is open. *)
+   F06a-e are fixed: the FULL statement holds on the model, import namespace of the endpoints module included. *)
 From PG Require Import Lib.Strs Model.Dispatch Proofs.Dispatch.
 
 (* The import NAMESPACE of the endpoints module is part of the model (call_ns): exception classes and model classes are
-   both imported by name, the models last.  The FULL statement is false (C06_refuted_F06e): a model class named like an
-   exception class shadows it and `raise NotFoundError(response=response)` fails with TypeError.
+   both imported by name, the models last, so a model class named like an exception class would shadow it (former F06e);
+   a colliding exception class is therefore referenced through its module.
 
-   C06_partial: for every transport kind, package, set of imported model class names, operation and status 100..599
-   outside 200-299 — if the name the handler raises for that status is not shadowed (executable guard_F06e) — the call
-   raises an exception whose class is a subclass of HTTPError carrying that status and the response; a subclass of
-   ClientError for 4xx and of ServerError for 5xx. *)
-Theorem C06_partial : forall k s ms o st,
-  status_ok st -> guard_F06e k s ms o st = true -> C06_spec (call_ns k s ms o st) st.
-Proof. exact partial_ns. Qed.
-Print Assumptions C06_partial.
+   C06_full: for every transport kind, package, set [all] of model class names of the spec, set [ms] (included in [all]) of
+   model classes imported by the endpoints module, operation and status 100..599 outside 200-299: the call raises an
+   exception whose class is a subclass of HTTPError carrying that status and the response; a subclass of ClientError
+   for 4xx and of ServerError for 5xx. *)
+Theorem C06_full : forall k s all ms o st, incl ms all -> status_ok st -> C06_spec (call_ns k s all ms o st) st.
+Proof. exact full_ns. Qed.
+Print Assumptions C06_full.
 
-(* the guard is exact *)
-Theorem C06_guard_exact : forall k s ms o st,
-  status_ok st -> C06_spec (call_ns k s ms o st) st -> guard_F06e k s ms o st = true.
-Proof. exact guard_ns_exact. Qed.
-Print Assumptions C06_guard_exact.
-
-(* the spec-level name-resolution side condition [no_shadowing] implies the guard for every operation and status *)
-Theorem C06_no_shadowing_guard : forall k s ms o st,
-  In o s -> no_shadowing s ms = true -> guard_F06e k s ms o st = true.
-Proof. exact no_shadowing_guard. Qed.
-Print Assumptions C06_no_shadowing_guard.
-
-(* without the namespace (equivalently: no model class imported): the property holds for every input *)
-Theorem C06_full_without_namespace : forall k s o st, status_ok st -> C06_spec (call k s o st) st.
-Proof. exact full. Qed.
-Print Assumptions C06_full_without_namespace.
-
-Theorem C06_refuted_F06e :
-  status_ok 404 /\ guard_F06e Custom [op_F06a] ms_F06e op_F06a 404 = false /\ no_shadowing [op_F06a] ms_F06e = false
-  /\ call_ns Custom [op_F06a] ms_F06e op_F06a 404 = Crashed
-  /\ ~ C06_spec (call_ns Custom [op_F06a] ms_F06e op_F06a 404) 404
-  /\ call_ns Bundled [op_F06a] ms_F06e op_F06a 404 = Raised ClientError 404 true.
-Proof. exact refuted_F06e. Qed.
-Print Assumptions C06_refuted_F06e.
-
-Theorem C06_guard_nonvacuous :
-  no_shadowing [op_ok] [alias_name 410; [73;116;101;109]] = true
-  /\ call_ns Custom [op_ok] [alias_name 410; [73;116;101;109]] op_ok 404 = Raised (Alias 404) 404 true.
-Proof. exact guard_ns_nonvacuous. Qed.
-Print Assumptions C06_guard_nonvacuous.
+(* regression for F06e: the witness raises the alias; the collision test is what prevents the crash *)
+Theorem C06_fixed_F06e :
+  call_ns Custom [op_F06a] ms_F06e ms_F06e op_F06a 404 = Raised (Alias 404) 404 true
+  /\ exception_ref ms_F06e (Alias 404) = Qualified (alias_name 404)
+  /\ call_ns Custom [op_F06a] [] ms_F06e op_F06a 404 = Crashed.
+Proof. exact fixed_F06e. Qed.
+Print Assumptions C06_fixed_F06e.
 
 (* the alias import of the endpoints module can no longer fail (former F06d) *)
 Theorem C06_imports_always : forall s, imports_ok s = true.
